@@ -201,6 +201,65 @@ fn precision_reader(is_end: bool) -> u64 {
     })
 }
 
+/// The *reported* precision, `Timer::precision()`, is cached per timer kind for
+/// the life of the process. In a fresh child process the OS timer and a TSC
+/// timer on a scripted uniform clock are queried in either order: the TSC timer
+/// must report its own step (not what was cached for the other timer), the OS
+/// timer a positive whole number of nanoseconds (`Instant` differences are).
+#[derive(Clone, Debug, Serialize, Deserialize)]
+struct CachedCase {
+    clock: PrecisionCase,
+    tsc_first: bool,
+}
+
+pub fn cached_child(text: &str) {
+    let case: CachedCase = serde_json::from_str(text).expect("parse case");
+    PCLOCK.with(|c| *c.borrow_mut() = (case.clock.start, case.clock.clone(), 0));
+    clock::set_reader(Some(precision_reader));
+    let (os, tsc) = pure::cached_precisions(case.clock.f, case.tsc_first);
+    // Asking again must not change the answer.
+    let (os2, tsc2) = pure::cached_precisions(case.clock.f, !case.tsc_first);
+    clock::set_reader(None);
+    println!("{os} {tsc} {os2} {tsc2}");
+}
+
+fn check_cached(c: &CachedCase) -> Verdict {
+    let case = &c.clock;
+    let expected = (case.step as u128 * PICOS) / case.f as u128;
+    if expected == 0 || case.pattern.is_empty() || !case.pattern.contains(&1) || case.lead > 0 {
+        return Verdict::pass(false);
+    }
+    let max_reads: u64 = 4 * 100 * 200;
+    let per_read = case.step.saturating_mul(4 + case.gap as u64);
+    if case.start.checked_add(per_read.saturating_mul(max_reads)).is_none() {
+        return Verdict::pass(false);
+    }
+    let exe = match std::env::current_exe() {
+        Ok(e) => e,
+        Err(e) => return Verdict::Inconclusive(e.to_string()),
+    };
+    let out = std::process::Command::new(exe).env_clear().env("VCHECK_C11_CACHED_CHILD", serde_json::to_string(c).unwrap()).stdin(std::process::Stdio::null()).output();
+    let out = match out {
+        Ok(o) => o,
+        Err(e) => return Verdict::Inconclusive(e.to_string()),
+    };
+    let text = String::from_utf8_lossy(&out.stdout).to_string();
+    let nums: Vec<u128> = text.split_whitespace().filter_map(|t| t.parse().ok()).collect();
+    if !out.status.success() || nums.len() != 4 {
+        let stderr = String::from_utf8_lossy(&out.stderr).to_string();
+        if stderr.contains("panicked") {
+            return Verdict::fail("cached-precision-panic", format!("{c:?}: {stderr}"));
+        }
+        return Verdict::Inconclusive(format!("child: status {:?}, output {text:?} {stderr:?}", out.status));
+    }
+    let (os, tsc, os2, tsc2) = (nums[0], nums[1], nums[2], nums[3]);
+    vensure!(tsc == expected, "cached-precision-wrong", "{c:?}: the TSC timer reports {tsc} ps, its uniform step is {expected} ps (the OS timer reported {os} ps)");
+    vensure!(os > 0 && os % 1000 == 0, "cached-precision-wrong", "{c:?}: the OS timer reports {os} ps, not a positive whole number of nanoseconds (the TSC timer reported {tsc} ps)");
+    vensure!(os2 == os && tsc2 == tsc, "cached-precision-unstable", "{c:?}: asked again, the timers report {os2} / {tsc2} ps instead of {os} / {tsc} ps");
+    classify(if c.tsc_first { "tsc first" } else { "os first" });
+    Verdict::pass(expected % 1000 != 0)
+}
+
 fn check_precision(case: &PrecisionCase) -> Verdict {
     // Preconditions (documented): a non-zero smallest duration exists and is seen.
     let expected = (case.step as u128 * PICOS) / case.f as u128;
@@ -288,6 +347,22 @@ fn groups(g: &mut Groups) {
         |_| vec![(0u64, 0u32), (u64::MAX, 999_999_999), (u64::MAX, 0), (1, 0), (0, 1), (0, 999_999_999)],
         true,
         check_duration,
+    );
+
+    g.prop(
+        "cached_precision",
+        1_600,
+        60_000,
+        || (
+            prop_oneof![1u64..=1000, (0u32..40).prop_map(|k| 1u64 << k)],
+            freq(),
+            edge_u64().prop_map(|x| x >> 1),
+            proptest::collection::vec(prop_oneof![3 => Just(1u8), 1 => Just(0u8), 1 => 2u8..=3], 1..=20),
+            0u8..=3,
+            any::<bool>(),
+        )
+            .prop_map(|(step, f, start, pattern, gap, tsc_first)| CachedCase { clock: PrecisionCase { step, f, start, pattern, gap, lead: 0, lead_outlier: None }, tsc_first }),
+        check_cached,
     );
 
     g.prop(
